@@ -974,7 +974,7 @@ class DiscretizedRateChange(DiscretizedDemographicEvent):
         :param epoch: Epoch.
         """
         # if epoch is contained in the event
-        if self.start_time <= epoch.start_time and epoch.end_time < self.end_time:
+        if self.start_time <= epoch.start_time and epoch.end_time <= self.end_time:
 
             rate_start = self.trajectory(epoch.start_time)
             rate_end = self.trajectory(epoch.end_time)
